@@ -202,6 +202,7 @@ def judge_history(case):
     model = {n: {"added": False, "ran": False, "mpe": False, "bound": None, "orig": True, "alt": False, "ran_alt": False} for n in objs}
     prepped = [False] * nset
     ran_classes = set()
+    order_model = [[] for _ in range(nset)]  # names in the order of their first addition (a re-added name keeps its place)
     j.tag(kind)
 
     def check_all(step, what):
@@ -236,6 +237,12 @@ def judge_history(case):
                 r = sut(setups[si].add_algorithms, *[objs[n] for n in mine])
                 if not j.check(not raised(r), "add-raises", lambda: f"{r!r}"):
                     return j
+            for n in names:
+                if n not in order_model[algs_spec[n][2]]:
+                    order_model[algs_spec[n][2]].append(n)
+            for si in range(nset):
+                got_order = list(getattr(setups[si], "algorithms", {}) or {})
+                j.check(got_order == order_model[si], "algorithm-order", lambda: f"after step {step}: setup {si} lists its algorithms as {got_order}, order of addition is {order_model[si]}")
             for n in names:
                 model[n]["added"] = True
                 st_ = setups[algs_spec[n][2]]
@@ -519,7 +526,9 @@ def judge_poser(case):
         for nn in range(4):
             names = [f"n{q}" for q in range(nn)]
             exp = _poser_expected(cis, names)
-            r = sut(lambda: MultiSetup_PoSER(ref_ind=[[0]] * len(setups), single_setups=list(setups), names=list(names)))
+            # the names as a list, a tuple or an array: the container carries no meaning
+            nm_arg = [list(names), tuple(names), np.array(names, dtype=object) if names else list(names)][(len(cis) + nn) % 3]
+            r = sut(lambda: MultiSetup_PoSER(ref_ind=[[0]] * len(setups), single_setups=list(setups), names=nm_arg))
             if exp:
                 naccept += 1
                 if not j.check(not raised(r), "poser-rejects-valid", lambda: f"valid configuration {[CONFIGS[c] for c in cis]} names={names} rejected: {r!r}"):
